@@ -36,6 +36,11 @@ pub(crate) mod vsrc {
     pub fn assume(c: bool) { kani::assume(c) }
     #[cfg(kani)]
     pub fn reach(_name: &'static str) {}
+    // named obligation whose name is built with concat!() (assert! wants a literal)
+    #[cfg(kani)]
+    pub fn check(c: bool, name: &'static str) { kani::assert(c, name) }
+    #[cfg(not(kani))]
+    pub fn check(c: bool, name: &'static str) { assert!(c, "{}", name) }
 
     #[cfg(not(kani))]
     pub trait FromRec: Sized { fn from_rec(next: &mut dyn FnMut() -> Vec<u8>) -> Self; }
